@@ -2,7 +2,7 @@
 from engine.runner import mk_case
 
 UN = "Union[int, bool, None]"
-POOL = ["'true'", "'False'", "'TRUE'", "'3'", "'-2'", "'x'", "''", "'1.5'", "' 7 '", "'fAlSe'", "'007'", "'truee'", "'inf'", "'1e999'", "'3.0'", "'nan'", "'1e3'", "'yes'"]
+POOL = ["'true'", "'False'", "'TRUE'", "'3'", "'-2'", "'x'", "''", "'1.5'", "' 7 '", "'fAlSe'", "'007'", "'truee'", "'inf'", "'1e999'", "'3.0'", "'nan'", "'1e3'", "'yes'", "'true\\n'", "'False\\n'", "'3\\n'", "'\\ntrue'"]
 CASTS = {"bool": "{str: valida.casting.cast_string_to_bool}", "int": "{str: int}"}
 
 # (id, path term source, doc source with S1/S2 castable positions and u1 symbolic leaf)
